@@ -281,6 +281,129 @@ fn sweep_serde_extra(ctx: &Ctx, ln: u32, max: u32) {
     });
 }
 
+
+// ---------------------------------------------------------------------------------------------
+// Struct shapes enumerated as field sequences. A map whose keys are `$text`, `$value`, `@a`, `e`,
+// `v` goes through exactly the code a derived struct with these fields goes through
+// (se::element::Map delegates to Struct::write_field), so every order of field kinds up to a bound
+// is a struct shape — including values that write nothing between a text and an element.
+
+#[derive(serde::Serialize, Debug, Clone)]
+enum Quiet {
+    #[serde(rename = "$text")]
+    Txt(String),
+    #[serde(rename = "$text")]
+    Silent,
+    El,
+}
+
+#[derive(Debug, Clone, Copy, PartialEq)]
+enum FVal {
+    Str(&'static str),
+    Unit,
+    NoneV,
+    EmptySeq,
+    Seq1,
+    Num,
+    QTxt,
+    QSilent,
+    QEl,
+    QMix,
+    NestedEmpty,
+}
+
+impl serde::Serialize for FVal {
+    fn serialize<S: serde::Serializer>(&self, s: S) -> Result<S::Ok, S::Error> {
+        match self {
+            FVal::Str(x) => s.serialize_str(x),
+            FVal::Unit => s.serialize_unit(),
+            FVal::NoneV => s.serialize_none(),
+            FVal::EmptySeq => Vec::<String>::new().serialize(s),
+            FVal::Seq1 => vec!["1"].serialize(s),
+            FVal::Num => s.serialize_u8(7),
+            FVal::QTxt => Quiet::Txt("q".into()).serialize(s),
+            FVal::QSilent => Quiet::Silent.serialize(s),
+            FVal::QEl => Quiet::El.serialize(s),
+            FVal::QMix => vec![Quiet::Txt("m".into()), Quiet::Silent, Quiet::El].serialize(s),
+            FVal::NestedEmpty => vec![Vec::<Quiet>::new(), vec![Quiet::El]].serialize(s),
+        }
+    }
+}
+
+const FIELDS: [(&str, FVal); 16] = [
+    ("$text", FVal::Str("x")),
+    ("$value", FVal::Unit),
+    ("$value", FVal::NoneV),
+    ("$value", FVal::EmptySeq),
+    ("$value", FVal::QTxt),
+    ("$value", FVal::QEl),
+    ("$value", FVal::Num),
+    ("$value", FVal::QSilent),
+    ("$value", FVal::QMix),
+    ("$value", FVal::NestedEmpty),
+    ("e", FVal::Str("1")),
+    ("e", FVal::NoneV),
+    ("v", FVal::EmptySeq),
+    ("v", FVal::Seq1),
+    ("@a", FVal::Str("1")),
+    ("$text", FVal::Num),
+];
+
+struct Shape(Vec<u8>);
+impl serde::Serialize for Shape {
+    fn serialize<S: serde::Serializer>(&self, s: S) -> Result<S::Ok, S::Error> {
+        use serde::ser::SerializeMap;
+        let mut m = s.serialize_map(Some(self.0.len()))?;
+        for &f in &self.0 {
+            let (k, v) = FIELDS[f as usize];
+            m.serialize_entry(k, &v)?;
+        }
+        m.end()
+    }
+}
+
+fn shape_check(fields: &[u8], q: u8, expand: bool) -> Result<Option<bool>, String> {
+    let plain_cfg = SerCfg { level: q, indent: false, expand, root: true };
+    let ind_cfg = SerCfg { indent: true, ..plain_cfg };
+    let v = Shape(fields.to_vec());
+    let (Ok(plain), Ok(ind)) = (ser(&v, plain_cfg), ser(&v, ind_cfg)) else { return Ok(None) };
+    let (a, b) = (raw_events(plain.as_bytes()), raw_events(ind.as_bytes()));
+    if a.is_err() || a != b {
+        return Err(format!("indented output {:?} differs from plain {:?} in more than blank text between markup", ind, plain));
+    }
+    Ok(Some(ind != plain))
+}
+
+fn sweep_shapes(ctx: &Ctx, ln: u32, max: u32) {
+    let k = FIELDS.len() as u64;
+    ctx.layer(
+        "serde.field_sequences",
+        ln,
+        count_upto(k, max),
+        json!({"fields": FIELDS.iter().map(|f| format!("{}: {:?}", f.0, f.1)).collect::<Vec<_>>(), "max_fields": max, "variants": "3 quote levels x expand"}),
+        |i, acc| {
+            let mut d = Vec::new();
+            decode_upto(k, max, i, &mut d);
+            for q in 0..3u8 {
+                for expand in [false, true] {
+                    acc.evaluations += 1;
+                    acc.traces += 1;
+                    acc.transitions += d.len() as u64;
+                    match shape_check(&d, q, expand) {
+                        Ok(Some(true)) => acc.nt_count += 1,
+                        Ok(_) => {}
+                        Err(what) => acc.violation(
+                            (ln, i),
+                            format!("struct with fields [{}] (quote level {}, expand {}): {}", d.iter().map(|&f| format!("{}: {:?}", FIELDS[f as usize].0, FIELDS[f as usize].1)).collect::<Vec<_>>().join(", "), q, expand, what),
+                            json!({"kind": "shape", "fields": d, "q": q, "expand": expand}),
+                        ),
+                    }
+                }
+            }
+        },
+    );
+}
+
 fn check_sequence(specs: &[Spec], ch: u8, size: usize) -> Result<bool, String> {
     let mut ind = Writer::new_with_indent(Vec::new(), ch, size);
     let mut plain = Writer::new(Vec::new());
@@ -314,7 +437,7 @@ pub fn run(ctx: &Ctx) {
          events; on EVERY transition the bytes appended by the indenting writer must be [newline indent-char*] + the plain writer's \
          bytes, the bracket being allowed only before markup that does not follow Text/CData. Writer, sequence tree: every sequence of \
          up to 4/5 events (Eof only last), written indented and plain, read back: identical events once blank-only texts are dropped, \
-         Text/CData payloads byte-identical. Async: the indenting async writer equals the sync one. Serde: mixed `$value` content with items that write nothing (None, empty nested sequence) between text and element items; every value of the C06 family \
+         Text/CData payloads byte-identical. Async: the indenting async writer equals the sync one. Serde: mixed `$value` content with items that write nothing (None, empty nested sequence) between text and element items; every struct shape given by a sequence of up to 4/5 fields out of 16 field kinds ($text, $value holding unit / None / empty sequence / text / element / number / silent `$text` unit variant / mixed list / nested sequences, element fields incl. empty sequences, attribute); every value of the C06 family \
          x quote level x expand x root: raw event streams of indented and plain output equal modulo blank-only text, and both \
          deserialize to the same value. non-trivial = outputs that differ from the plain ones; distinct by construction",
     );
@@ -333,7 +456,7 @@ pub fn run(ctx: &Ctx) {
     // (2) sequence tree with read-back
     let alpha = alphabet();
     let k = alpha.len() as u64;
-    let n = if full { t.pick(4, 5) } else { 3 };
+    let n = if full { t.pick(4, 6) } else { 3 };
     ctx.layer("writer.sequences_readback", 1, count_upto(k, n) * 3, json!({"max_len": n, "indents": [[" ", 2], ["\\t", 1], [" ", 0]]}), |i, acc| {
         let (ch, size) = [(b' ', 2usize), (b'\t', 1), (b' ', 0)][(i % 3) as usize];
         let mut d = Vec::new();
@@ -393,6 +516,7 @@ pub fn run(ctx: &Ctx) {
     }
     crate::for_each_type!(go);
     sweep_serde_extra(ctx, ln, t.pick(4, 5));
+    sweep_shapes(ctx, ln + 1, t.pick(4, 5));
 }
 
 pub fn replay(case: &Value) -> Result<(), String> {
@@ -413,6 +537,13 @@ pub fn replay(case: &Value) -> Result<(), String> {
             let size = case["size"].as_u64().unwrap_or(2) as usize;
             println!("indent ({:?},{}) events {:?}", ch as char, size, specs);
             check_sequence(&specs, ch, size).map(|_| ())
+        }
+        "shape" => {
+            let fields: Vec<u8> = case["fields"].as_array().ok_or("no fields")?.iter().map(|x| x.as_u64().unwrap() as u8).collect();
+            let q = case["q"].as_u64().unwrap_or(0) as u8;
+            let expand = case["expand"].as_bool().unwrap_or(false);
+            println!("fields {:?}", fields.iter().map(|&f| FIELDS[f as usize]).collect::<Vec<_>>());
+            shape_check(&fields, q, expand).map(|_| ())
         }
         "serde_extra" => Err("re-run ./check C19 quick: the serde.mixed_with_silent_items layer reproduces it".into()),
         _ => {
